@@ -262,9 +262,13 @@ pub(crate) fn to_i64_t(d: &[u8]) -> Result<(i64, &[u8]), ScalarError> {
     };
 
     let (val, rest) = to_u64_t2(data, u64::from(start))?;
-    let val = i64::try_from(val)
-        .map(|x| sign * x)
-        .map_err(|_| ScalarError::Overflow)?;
+    let val = if sign < 0 {
+        // i64::MIN has no positive counterpart
+        0i64.checked_sub_unsigned(val)
+    } else {
+        i64::try_from(val).ok()
+    }
+    .ok_or(ScalarError::Overflow)?;
     Ok((val, rest))
 }
 
